@@ -180,6 +180,11 @@ func decoyFiles(g *fgen) []InitFile {
 	if g.chance(0.3) {
 		out = append(out, InitFile{P: "snaps/gone_test.snap", Content: []byte("\n[TestGone - 1]\nold\n---\n"), Role: "multi"})
 	}
+	if g.chance(0.3) {
+		// leftovers of a rename: names that differ from the addressed ones only in letter case
+		out = append(out, InitFile{P: "snaps/Main_test.snap", Content: []byte("\n[TestGone - 1]\nold\n---\n"), Role: "multi"},
+			InitFile{P: "snaps/testa_1.snap", Content: []byte("stale standalone"), Role: "alone", Owner: "testa"})
+	}
 	return out
 }
 
